@@ -249,6 +249,42 @@ pub fn main(args: &[String]) {
     let mut rep = Report::default();
     let mut ev = vec![];
     match args.first().map(|s| s.as_str()) {
+        Some("corpus") => {
+            // V on the repository's glyf fonts: the bytes of (a sample of) the real glyphs and what read-fonts decodes
+            // from them; GlyfTrace decodes the same bytes with the specification
+            use read_fonts::TableProvider;
+            let per_font: usize = arg_after(args, "--per-font").map(|s| s.parse().unwrap()).unwrap_or(40);
+            for dir in ["/repo/font-test-data/test_data/ttf", "/repo/klippa/test-data/fonts"] {
+                let Ok(rd) = std::fs::read_dir(dir) else { continue };
+                let mut files: Vec<_> = rd.filter_map(|e| e.ok()).map(|e| e.path()).filter(|p| p.extension().map(|e| e == "ttf").unwrap_or(false)).collect();
+                files.sort();
+                for path in files {
+                    let Ok(bytes) = std::fs::read(&path) else { continue };
+                    let Ok(f) = read_fonts::FontRef::new(&bytes) else { continue };
+                    let (Ok(loca), Ok(glyf)) = (f.loca(None), f.glyf()) else { continue };
+                    let n = f.maxp().map(|m| m.num_glyphs() as usize).unwrap_or(0);
+                    let step = (n / per_font).max(1);
+                    let name = path.file_name().unwrap().to_string_lossy().to_string();
+                    rep.add("corpus_fonts", 1);
+                    for gid in (0..n).step_by(step) {
+                        let (Some(a), Some(b)) = (loca.get_raw(gid), loca.get_raw(gid + 1)) else { continue };
+                        let Some(data) = glyf.offset_data().as_bytes().get(a as usize..b as usize) else { continue };
+                        if data.len() > 1400 {
+                            continue;
+                        }
+                        rep.evaluations += 1;
+                        match guarded(|| read_back(&loca, &glyf, gid as u32)) {
+                            Err(p) => rep.violation(&format!("{name} glyph {gid}: reading panicked: {p}"), json!({"kind": "glyf-corpus", "font": name, "glyph": gid})),
+                            Ok(Err(e)) => rep.violation(&format!("{name} glyph {gid}: {e}"), json!({"kind": "glyf-corpus", "font": name, "glyph": gid})),
+                            Ok(Ok(g)) => {
+                                ev.push(json!({"op": "glyf_read", "font": name, "gid": gid, "bytes": data, "glyph": g}));
+                                rep.distinct += 1;
+                            }
+                        }
+                    }
+                }
+            }
+        }
         Some("cases") => {
             let path = arg_after(args, "--cases").expect("--cases");
             let tri = json!({"kind": "simple", "bbox": [0, 0, 10, 10], "contours": [[[0, 0, 1], [10, 0, 1], [5, 10, 0]]], "instr": []});
